@@ -281,8 +281,9 @@ def slice_graph(gj, keep):
     return out
 
 
-def slices(gj, max_real):
-    """Distinct ancestor-closed slices with at most max_real executing jobs, largest first."""
+def slices(gj, max_real, keep_nested=False):
+    """Distinct ancestor-closed slices with at most max_real executing jobs, largest first.
+    keep_nested: also return slices contained in a larger returned slice."""
     deps, _ = dependency_edges(gj)
     seen = {}
     for t in range(1, gj["n"] + 1):
@@ -296,7 +297,7 @@ def slices(gj, max_real):
     keys = sorted(seen, key=lambda c: -len(c))
     out = []
     for c in keys:
-        if not any(c < o for o, _, _ in out):
+        if keep_nested or not any(c < o for o, _, _ in out):
             out.append((c, seen[c][0], seen[c][1]))
     return out
 
